@@ -53,6 +53,7 @@ type Obs struct {
 	Dests       map[string]rwc.Rule `json:"dests"`             // app.Websocket.Rules afterwards
 	Streams     map[string][]string `json:"streams"`           // app.Hub.Rules afterwards
 	StderrEnd   string              `json:"stderr,omitempty"`  // last lines of the child's stderr when it ended
+	CtlURL      string              `json:"ctl_url,omitempty"` // ctl mode with a further control connection, first line only: the relay end's address
 	APIUsed     string              `json:"api_used,omitempty"`
 	// pipelined session (one observation for the whole session)
 	Topic  []TopicMsg `json:"topic,omitempty"`  // everything seen on the api topic, in hub order: commands and replies
@@ -149,8 +150,16 @@ func childMain() {
 	var ctl *ctlRelay
 	if s.Mode == "ctl" {
 		ctl = startCtlRelay()
-		s.API = ctl.api
-		emit(Obs{APIUsed: s.API})
+		if s.CtlRuleID == "" {
+			s.API = ctl.api
+			emit(Obs{APIUsed: s.API})
+		} else {
+			// a further control connection: the rule that the first item adds points at the relay end
+			for i := range s.Items {
+				s.Items[i].Msg = bytes.ReplaceAll(s.Items[i].Msg, []byte("@CTL@"), []byte(ctl.api))
+			}
+			emit(Obs{CtlURL: ctl.api})
+		}
 	}
 	port := lib.FreePorts(1)[0]
 	var app *vw.App
@@ -214,12 +223,37 @@ func childMain() {
 			}
 		}()
 	}
-	if ctl != nil && !ctl.waitConn(10*time.Second) {
+	if ctl != nil && s.CtlRuleID == "" && !ctl.waitConn(10*time.Second) {
 		fmt.Fprintln(os.Stderr, "the host did not open its control connection within 10 s")
 		os.Exit(3)
 	}
+	// who answers on the topic: the admin client is known by its own Send channel (learnt from the answer to one
+	// healthcheck), not by a name - a control connection may come under any name
+	var adminSend chan hub.Message
+	barrier(app)
+	time.Sleep(3 * time.Millisecond)
+	app.Hub.Broadcast <- hub.Message{Sender: *inj, Data: []byte(`{"verb":"healthcheck"}`), Type: websocket.TextMessage, Sent: time.Now()}
+	hello := time.After(replyWait)
+learn:
+	for {
+		select {
+		case m := <-tap.Send:
+			if string(m.Data) == `{"healthcheck":"ok"}` {
+				adminSend = m.Sender.Send
+				break learn
+			}
+		case <-hello:
+			break learn
+		}
+	}
+	fromAdmin := func(m hub.Message) bool {
+		if adminSend != nil {
+			return m.Sender.Send == adminSend
+		}
+		return m.Sender.Name == "admin"
+	}
 	if s.Mode == "pipe" {
-		pipeSession(app, base, tap, s, emit)
+		pipeSession(app, base, tap, s, emit, fromAdmin)
 		os.Exit(0)
 	}
 	barrier(app)
@@ -244,7 +278,7 @@ func childMain() {
 		for {
 			select {
 			case m := <-tap.Send:
-				if m.Sender.Name == "admin" {
+				if fromAdmin(m) {
 					return m.Data, true
 				}
 			case <-deadline:
@@ -355,7 +389,7 @@ func childMain() {
 
 // pipeSession: the session's controllers connect to /ws/api, all send their commands back to back without
 // waiting for a reply, and everything they receive is collected; the topic is watched in-process.
-func pipeSession(app *vw.App, base string, tap *hub.Client, s Session, emit func(Obs)) {
+func pipeSession(app *vw.App, base string, tap *hub.Client, s Session, emit func(Obs), fromAdmin func(hub.Message) bool) {
 	n := s.Controllers
 	conns := make([]*websocket.Conn, n)
 	frames := make([][][]byte, n)
@@ -390,7 +424,7 @@ func pipeSession(app *vw.App, base string, tap *hub.Client, s Session, emit func
 			select {
 			case m := <-tap.Send:
 				mu.Lock()
-				topic = append(topic, TopicMsg{Reply: m.Sender.Name == "admin", From: m.Sender.Name, Data: m.Data})
+				topic = append(topic, TopicMsg{Reply: fromAdmin(m), From: m.Sender.Name, Data: m.Data})
 				last = time.Now()
 				mu.Unlock()
 			case <-stopTap:
@@ -527,7 +561,7 @@ func (c *ctlRelay) waitConn(d time.Duration) bool {
 // send writes a command to the host over the control connection; false when there is none (the rule was
 // re-pointed by an earlier command of the session) - the caller then uses the topic directly.
 func (c *ctlRelay) send(msg []byte) bool {
-	if !c.waitConn(1500 * time.Millisecond) {
+	if !c.waitConn(400 * time.Millisecond) {
 		return false
 	}
 	c.mu.Lock()
